@@ -33,6 +33,7 @@
 #include <pthread.h>
 #include <sched.h>
 #include <signal.h>
+#include <sys/stat.h>
 #include <stdint.h>
 #include <stdio.h>
 #include <stdlib.h>
@@ -1472,6 +1473,8 @@ static void load_program(const char *path)
 	if (ver != 1 || ti != g_nthreads - 1 || (ti >= 0 && oi != g_th[ti].nops) || !g_dir[0] || !g_time) die("incomplete program");
 }
 
+static char g_globals[512];
+
 static void write_results(const char *path)
 {
 	FILE *fp = fopen(path, "w");
@@ -1489,6 +1492,7 @@ static void write_results(const char *path)
 		}
 		fputc('\n', fp);
 	}
+	fputs(g_globals, fp);
 	fprintf(fp, "END\n");
 	fclose(fp);
 }
@@ -1524,10 +1528,53 @@ static int mkkey(const char *hexd, const char *pass, const char *outpath)
 	return 0;
 }
 
+/* process-wide state the library has no business changing: signal dispositions (the harness installs its own SIGPIPE handler so that a
+ * change is visible), the file mode creation mask and the working directory.  Compared after the run; differences go into the result file
+ * as "G <what>" lines (independent objects share the process: an operation that saves / changes / restores such state is only correct
+ * when nothing else runs). */
+static const int g_sigs[] = { SIGHUP, SIGINT, SIGQUIT, SIGPIPE, SIGALRM, SIGTERM, SIGUSR1, SIGUSR2, SIGCHLD };
+#define N_SIGS (sizeof(g_sigs) / sizeof(g_sigs[0]))
+static struct sigaction g_sa0[N_SIGS];
+static mode_t g_umask0;
+static char g_cwd0[1024];
+static volatile sig_atomic_t g_sigpipes;
+
+static void on_sigpipe(int s) { (void)s; g_sigpipes++; }
+
+static void globals_snapshot(void)
+{
+	size_t i;
+	struct sigaction sa;
+	memset(&sa, 0, sizeof(sa));
+	sa.sa_handler = on_sigpipe;
+	sigemptyset(&sa.sa_mask);
+	sigaction(SIGPIPE, &sa, NULL);
+	for (i = 0; i < N_SIGS; i++) sigaction(g_sigs[i], NULL, &g_sa0[i]);
+	g_umask0 = umask(022); umask(g_umask0);
+	if (!getcwd(g_cwd0, sizeof(g_cwd0))) g_cwd0[0] = 0;
+}
+
+static void globals_compare(void)
+{
+	size_t i, n = 0;
+	mode_t m;
+	char cwd[1024];
+	g_globals[0] = 0;
+	for (i = 0; i < N_SIGS; i++) {
+		struct sigaction sa;
+		sigaction(g_sigs[i], NULL, &sa);
+		if (sa.sa_handler != g_sa0[i].sa_handler || sa.sa_flags != g_sa0[i].sa_flags)
+			n += (size_t)snprintf(g_globals + n, sizeof(g_globals) - n, "G sigaction:%d\n", g_sigs[i]);
+	}
+	m = umask(022); umask(m);
+	if (m != g_umask0) n += (size_t)snprintf(g_globals + n, sizeof(g_globals) - n, "G umask\n");
+	if (getcwd(cwd, sizeof(cwd)) && strcmp(cwd, g_cwd0)) n += (size_t)snprintf(g_globals + n, sizeof(g_globals) - n, "G cwd\n");
+}
+
 int main(int argc, char **argv)
 {
 	int i, conc;
-	signal(SIGPIPE, SIG_IGN);
+	globals_snapshot();
 	g_time = 1790000000;
 	entropy_seed(1);
 	if (argc == 5 && !strcmp(argv[1], "mkkey")) return mkkey(argv[2], argv[3], argv[4]);
@@ -1552,6 +1599,7 @@ int main(int argc, char **argv)
 		for (i = 0; i < g_nthreads; i++) run_list(&g_th[i]);
 	}
 	unpark_all();
+	globals_compare();
 	write_results(argv[3]);
 	return 0;
 }
